@@ -2,7 +2,7 @@
     them stepped, with atmosphere blocks), and concrete witnesses of the two recorded defects. *)
 From Coq Require Import List Bool Arith ZArith QArith Qcanon Lia.
 From PTBase Require Import Exn.
-From P Require Import Rectgeo QcFacts GeoFacts ListFacts Forward Walk Track Origin Spacings Mapping Surface Main Regen Final.
+From P Require Import Rectgeo QcFacts GeoFacts ListFacts Forward Walk Track Origin Spacings Mapping Surface Main Regen Final Heading Trim FinalTrim.
 Import ListNotations.
 Open Scope Qc_scope.
 
@@ -15,22 +15,24 @@ Ltac small n := (* case analysis on a natural number bounded by a hypothesis *)
          | H : (_ <= S ?i <= _)%nat |- _ => is_var i; destruct i; cbn in H; try lia
          end.
 
-(** a stepped 2 x 2 x 3 geometry with one atmosphere block per column (inactive: zero volume);
+(** a stepped 2 x 2 x 3 geometry, rotated (x-axis along (4/5, -3/5)), with one atmosphere block per column
+    (inactive: zero volume);
     column (0,0) reaches the top, (1,0) is truncated inside layer 1, (0,1) ends on the boundary of
     layers 2 and 3 (only its bottom block), (1,1) reaches above the top *)
 Definition w1_surf (i j : nat) : Qc :=
   match i, j with
   | 0%nat, 0%nat => q 5 | 1%nat, 0%nat => Q2Qc (9 # 2) | 0%nat, 1%nat => q 2 | _, _ => q 6
   end.
-Definition w1 : rgeo := mkRgeo (q 10) (q (-20)) (q 5) [q 1; q 2] [q 3; q 1] [q 1; q 2; q 4] 1 0 (Q2Qc (1 # 1000)) w1_surf.
+Definition w1 : rgeo := mkRgeo (q 10) (q (-20)) (q 5) (Q2Qc (4 # 5)) (Q2Qc (-3 # 5)) [q 1; q 2] [q 3; q 1] [q 1; q 2; q 4] 1 0 (Q2Qc (1 # 1000)) (q 5) w1_surf.
 
 Lemma w1_class : in_class cid_eqb w1 idn idn (q 1000) 0.
 Proof.
   constructor.
   - exact cid_eqb_eq.
-  - constructor; try (cbn; lia); try (repeat constructor; qc_dec).
+  - constructor; try (cbn; lia); try (repeat constructor; qc_dec); try qc_dec.
     intros i j Hi Hj. cbn in Hi, Hj. destruct i as [|[|i]]; destruct j as [|[|j]]; try lia; qc_dec.
   - left. cbn. lia.
+  - apply Qc_is_canon. vm_compute. reflexivity.
   - intros a b _ _ E. exact E.
   - intros a b _ _ E. exact E.
   - intros k i j [Hk [Hi [Hj Hh]]]. cbn in Hk, Hi, Hj.
@@ -44,21 +46,22 @@ Lemma w1_clear : clear_of_defects false false w1.
 Proof. split; [intros _; cbn; lia|]. intros _ [E|E]; cbn in E; lia. Qed.
 (** ... on which the theorems apply (here with the canonical connection_name order) *)
 Example w1_result :
-  rectgeo cid cid_eqb false false (grid_of w1 idn (cn_canonical cid_eqb w1 idn)) (q 1000) 0 1 idn = Ok (expected cid_eqb w1 idn idn).
+  rectgeo cid cid_eqb heading_exact false false (grid_of w1 idn (cn_canonical cid_eqb w1 idn)) None (q 1000) false 0 1 idn = Ok (expected cid_eqb w1 idn idn).
 Proof.
-  exact (rectgeo_total_lemma cid cid_eqb w1 idn idn (q 1000) 0 w1_class false false _ (cn_canonical_ok cid_eqb w1 idn cid_eqb_eq) w1_clear).
+  exact (rectgeo_total_lemma cid cid_eqb w1 idn idn (q 1000) 0 w1_class heading_exact heading_exact_spec None (or_introl eq_refl) false ltac:(intro X; discriminate X) false false _ (cn_canonical_ok cid_eqb w1 idn cid_eqb_eq) w1_clear).
 Qed.
 
 (** a single block in direction 1 (the finding match_position:single-block-in-direction-1):
     dx = [4], dy = [2, 8], dz = [1, 2], flat, no atmosphere blocks *)
-Definition w2 : rgeo := mkRgeo 0 0 0 [q 4] [q 2; q 8] [q 1; q 2] 2 0 0 (fun _ _ => 0).
+Definition w2 : rgeo := mkRgeo 0 0 0 1 0 [q 4] [q 2; q 8] [q 1; q 2] 2 0 0 0 (fun _ _ => 0).
 Lemma w2_class : in_class cid_eqb w2 idn idn (q 1000) 0.
 Proof.
   constructor.
   - exact cid_eqb_eq.
-  - constructor; try (cbn; lia); try (repeat constructor; qc_dec).
+  - constructor; try (cbn; lia); try (repeat constructor; qc_dec); try qc_dec.
     intros i j Hi Hj. cbn in Hi, Hj. destruct i as [|i]; destruct j as [|[|j]]; try lia; qc_dec.
   - right. cbn. lia.
+  - apply Qc_is_canon. vm_compute. reflexivity.
   - intros a b _ _ E. exact E.
   - intros a b _ _ E. exact E.
   - intros k i j [Hk [Hi [Hj Hh]]]. cbn in Hk, Hi, Hj.
@@ -69,9 +72,9 @@ Proof.
 Qed.
 (** the code as it stands returns a NaN position on it (the spacings are still recovered) ... *)
 Example w2_nan : exists r,
-  rectgeo cid cid_eqb false false (grid_of w2 idn (cn_canonical cid_eqb w2 idn)) (q 1000) 0 2 idn = Ok r /\ r_pos r = PosNaN.
+  rectgeo cid cid_eqb heading_exact false false (grid_of w2 idn (cn_canonical cid_eqb w2 idn)) None (q 1000) false 0 2 idn = Ok r /\ r_pos r = PosNaN.
 Proof.
-  destruct (single_block_direction_1_nan_lemma cid cid_eqb w2 idn idn (q 1000) 0 w2_class false _
+  destruct (single_block_direction_1_nan_lemma cid cid_eqb w2 idn idn (q 1000) 0 w2_class heading_exact heading_exact_spec None (or_introl eq_refl) false ltac:(intro X; discriminate X) false _
               (cn_canonical_ok cid_eqb w2 idn cid_eqb_eq) eq_refl) as [r [E [P _]]].
   - intros _. left. vm_compute. reflexivity.
   - exists r. auto.
@@ -79,16 +82,16 @@ Qed.
 (** ... so the unguarded statement "the position is recovered for every geometry of the class" is refuted
     for the code as it stands, and holds for the repaired code *)
 Example position_refuted_as_is : exists g, in_class cid_eqb g idn idn (q 1000) 0 /\
-  forall r, rectgeo cid cid_eqb false false (grid_of g idn (cn_canonical cid_eqb g idn)) (q 1000) 0 (gatm g) idn = Ok r ->
-            r_pos r <> PosXY (gox g) (goy g).
+  forall r, rectgeo cid cid_eqb heading_exact false false (grid_of g idn (cn_canonical cid_eqb g idn)) None (q 1000) false 0 (gatm g) idn = Ok r ->
+            r_pos r <> PosAx (gox g) (goy g) (gax g) (gay g).
 Proof.
   exists w2. split; [exact w2_class|]. intros r E. destruct w2_nan as [r' [E' P']]. change (gatm w2) with 2%nat in E.
   rewrite E' in E. inversion E. subst. rewrite P'. discriminate.
 Qed.
 Example w2_repaired :
-  rectgeo cid cid_eqb true true (grid_of w2 idn (cn_canonical cid_eqb w2 idn)) (q 1000) 0 2 idn = Ok (expected cid_eqb w2 idn idn).
+  rectgeo cid cid_eqb heading_exact true true (grid_of w2 idn (cn_canonical cid_eqb w2 idn)) None (q 1000) false 0 2 idn = Ok (expected cid_eqb w2 idn idn).
 Proof.
-  apply (rectgeo_total_lemma cid cid_eqb w2 idn idn (q 1000) 0 w2_class true true _ (cn_canonical_ok cid_eqb w2 idn cid_eqb_eq)).
+  apply (rectgeo_total_lemma cid cid_eqb w2 idn idn (q 1000) 0 w2_class heading_exact heading_exact_spec None (or_introl eq_refl) false ltac:(intro X; discriminate X) true true _ (cn_canonical_ok cid_eqb w2 idn cid_eqb_eq)).
   split; intros X; discriminate X.
 Qed.
 
@@ -96,14 +99,15 @@ Qed.
     block_spacings:2d-no-atmosphere-origin-column-single-layer): dx = [2, 4, 8], dy = [16],
     dz = [1, 2, 4], surfaces [-3, 0, 0] *)
 Definition w3_surf (i j : nat) : Qc := match i with 0%nat => q (-3) | _ => 0 end.
-Definition w3 : rgeo := mkRgeo 0 0 0 [q 2; q 4; q 8] [q 16] [q 1; q 2; q 4] 2 0 0 w3_surf.
+Definition w3 : rgeo := mkRgeo 0 0 0 1 0 [q 2; q 4; q 8] [q 16] [q 1; q 2; q 4] 2 0 0 0 w3_surf.
 Lemma w3_class : in_class cid_eqb w3 idn idn (q 10000) 0.
 Proof.
   constructor.
   - exact cid_eqb_eq.
-  - constructor; try (cbn; lia); try (repeat constructor; qc_dec).
+  - constructor; try (cbn; lia); try (repeat constructor; qc_dec); try qc_dec.
     intros i j Hi Hj. cbn in Hi, Hj. destruct i as [|[|[|i]]]; destruct j as [|j]; try lia; qc_dec.
   - left. cbn. lia.
+  - apply Qc_is_canon. vm_compute. reflexivity.
   - intros a b _ _ E. exact E.
   - intros a b _ _ E. exact E.
   - intros k i j [Hk [Hi [Hj Hh]]]. cbn in Hk, Hi, Hj.
@@ -114,19 +118,58 @@ Proof.
   - exists 1%nat, 0%nat. split; [cbn; lia|]. split; [cbn; lia|]. qc_dec.
 Qed.
 Example w3_indexerror :
-  rectgeo cid cid_eqb false false (grid_of w3 idn (cn_canonical cid_eqb w3 idn)) (q 10000) 0 2 idn = Raise IndexError.
+  rectgeo cid cid_eqb heading_exact false false (grid_of w3 idn (cn_canonical cid_eqb w3 idn)) None (q 10000) false 0 2 idn = Raise IndexError.
 Proof.
-  apply (origin_column_2d_indexerror_lemma cid cid_eqb w3 idn idn (q 10000) 0 w3_class false _ (cn_canonical_ok cid_eqb w3 idn cid_eqb_eq)).
+  apply (origin_column_2d_indexerror_lemma cid cid_eqb w3 idn idn (q 10000) 0 w3_class heading_exact heading_exact_spec None (or_introl eq_refl) false ltac:(intro X; discriminate X) false _ (cn_canonical_ok cid_eqb w3 idn cid_eqb_eq)).
   - right. reflexivity.
   - vm_compute. reflexivity.
   - cbn. lia.
 Qed.
 Example spacings_refuted_as_is : exists g, in_class cid_eqb g idn idn (q 10000) 0 /\
-  forall r, rectgeo cid cid_eqb false false (grid_of g idn (cn_canonical cid_eqb g idn)) (q 10000) 0 (gatm g) idn <> Ok r.
+  forall r, rectgeo cid cid_eqb heading_exact false false (grid_of g idn (cn_canonical cid_eqb g idn)) None (q 10000) false 0 (gatm g) idn <> Ok r.
 Proof. exists w3. split; [exact w3_class|]. intros r. change (gatm w3) with 2%nat. rewrite w3_indexerror. discriminate. Qed.
 Example w3_repaired :
-  rectgeo cid cid_eqb false true (grid_of w3 idn (cn_canonical cid_eqb w3 idn)) (q 10000) 0 2 idn = Ok (expected cid_eqb w3 idn idn).
+  rectgeo cid cid_eqb heading_exact false true (grid_of w3 idn (cn_canonical cid_eqb w3 idn)) None (q 10000) false 0 2 idn = Ok (expected cid_eqb w3 idn idn).
 Proof.
-  apply (rectgeo_total_lemma cid cid_eqb w3 idn idn (q 10000) 0 w3_class false true _ (cn_canonical_ok cid_eqb w3 idn cid_eqb_eq)).
+  apply (rectgeo_total_lemma cid cid_eqb w3 idn idn (q 10000) 0 w3_class heading_exact heading_exact_spec None (or_introl eq_refl) false ltac:(intro X; discriminate X) false true _ (cn_canonical_ok cid_eqb w3 idn cid_eqb_eq)).
   split; [intros _; cbn; lia|intros X; discriminate X].
+Qed.
+
+(** no column reaches the top of layer 1: dx = [1, 2], dy = [3], dz = [1, 2, 4] from elevation 0; column 0 ends at -2
+    (inside layer 2), column 1 at -3 (only its bottom block).  The highest surface lies in layer kt = 2. *)
+Definition w4_surf (i j : nat) : Qc := match i with 0%nat => q (-2) | _ => q (-3) end.
+Definition w4 : rgeo := mkRgeo (q 7) (q 9) 0 (Q2Qc (3 # 5)) (Q2Qc (4 # 5)) [q 1; q 2] [q 3] [q 1; q 2; q 4] 0 (q 0) (Q2Qc (1 # 1000)) 0 w4_surf.
+Lemma w4_class : in_class_trunc cid_eqb w4 idn idn (q 1000) 0 2 0 0.
+Proof.
+  constructor.
+  - exact cid_eqb_eq.
+  - constructor; try (cbn; lia); try (repeat constructor; qc_dec); try qc_dec.
+    intros i j Hi Hj. cbn in Hi, Hj. destruct i as [|[|i]]; destruct j as [|j]; try lia; qc_dec.
+  - left. cbn. lia.
+  - apply Qc_is_canon. vm_compute. reflexivity.
+  - intros a b _ _ E. exact E.
+  - intros a b _ _ E. exact E.
+  - intros k i j [Hk [Hi [Hj Hh]]]. cbn in Hk, Hi, Hj.
+    destruct k as [|[|[|k]]]; try lia; destruct i as [|[|i]]; try lia; destruct j as [|j]; try lia;
+      first [ vm_compute in Hh; discriminate Hh | qc_dec ].
+  - intros _. vm_compute. reflexivity.
+  - cbn. lia.
+  - cbn. lia.
+  - cbn. lia.
+  - intros i j Hi Hj. cbn in Hi, Hj. destruct i as [|[|i]]; destruct j as [|j]; try lia; qc_dec.
+  - qc_dec.
+  - qc_dec.
+  - intros i j _ _. apply nosnap_nonpos. apply Qcle_refl.
+Qed.
+(** on it rectgeo returns the trimmed geometry: two layers, the top one 1 thick (= -2 - (-3)) instead of 2 *)
+Example w4_result : exists r,
+  rectgeo cid cid_eqb heading_exact true true (grid_of w4 idn (cn_canonical cid_eqb w4 idn)) None (q 1000) false 0 0 idn = Ok r /\
+  r_dz r = [q 1; q 4] /\ r_oz r = q (-2) /\ r_dx r = [q 1; q 2].
+Proof.
+  destruct (rectgeo_top_unreached_fields_lemma cid cid_eqb w4 idn idn (q 1000) 0 2 0 0 w4_class heading_exact heading_exact_spec None
+              (or_introl eq_refl) false ltac:(intro X; discriminate X) true true _ (cn_canonical_ok cid_eqb w4 idn cid_eqb_eq))
+    as [r [E [A [B [Cz [P [O S]]]]]]].
+  - split; intros X; discriminate X.
+  - exists r. split; [exact E|]. rewrite Cz, O, A. split; [|split; reflexivity].
+    cbn [w4 gdz skipn]. f_equal.
 Qed.
